@@ -5,6 +5,7 @@ package main
 
 import (
 	"bufio"
+	"encoding/json"
 	"fmt"
 	"os"
 	"strings"
@@ -132,3 +133,5 @@ func b01(b bool) string {
 	}
 	return "0"
 }
+
+func jsonUnmarshal(b []byte, v any) error { return json.Unmarshal(b, v) }
